@@ -245,7 +245,11 @@ func render(in Input) string {
 			fmt.Fprintf(&sb, " %s %s { %s %s; }", sub, quote(n), val, in.Values[i])
 		}
 	}
-	sb.WriteString(" } } }")
+	sb.WriteString(" } }")
+	// the same member list reached through a typedef and through a typedef of that typedef
+	body := sb.String()
+	body = body[strings.Index(body, "type "+kw) : len(body)-2]
+	sb.WriteString(" typedef te { " + body + " } typedef te2 { type te; } leaf via-typedef { type te; } leaf-list via-chain { type te2; } }")
 	return sb.String()
 }
 
@@ -339,6 +343,46 @@ func check(in Input) *fail {
 				e = l.Type.Bit
 			}
 			f = compareType(in, e, ex.byName)
+			// the tables of the leaves that reach the list through a typedef say the same, and a
+			// table handed out by a processed tree goes on numbering where the list stopped: the
+			// next automatic member gets one more than the highest value, or is refused
+			root := yang.ToEntry(ms.Modules["m"])
+			for _, ln := range []string{"via-typedef", "via-chain", "l"} {
+				if f != nil {
+					return
+				}
+				x := root.Dir[ln]
+				if x == nil || x.Type == nil {
+					f = &fail{"no-leaf-type", "leaf " + ln + " with type", "nil"}
+					return
+				}
+				t := x.Type.Enum
+				if in.Bits {
+					t = x.Type.Bit
+				}
+				if pf := compareType(in, t, ex.byName); pf != nil {
+					pf.fp += "@through-typedef"
+					f = pf
+					return
+				}
+				if ln == "via-typedef" {
+					continue // (may be the very table of via-chain: extended once)
+				}
+				more := Input{Bits: in.Bits, Path: in.Path, Names: append(append([]string{}, in.Names...), "zz-next-"+ln), Values: append(append([]string{}, in.Values...), "")}
+				mx := reference(more)
+				err := t.SetNext("zz-next-" + ln)
+				switch {
+				case mx.errAt >= 0 && err == nil:
+					f = &fail{"invalid-member-accepted@table-of-a-processed-leaf", "SetNext refused: the highest value is the maximum", fmt.Sprintf("accepted on leaf %s: %s", ln, fmtMap(t.NameMap()))}
+				case mx.errAt < 0 && err != nil:
+					f = &fail{"valid-member-rejected@table-of-a-processed-leaf", "SetNext accepted on leaf " + ln, err.Error()}
+				case mx.errAt < 0:
+					if pf := compareType(more, t, mx.byName); pf != nil {
+						pf.fp += "@table-of-a-processed-leaf"
+						f = pf
+					}
+				}
+			}
 		}
 	})
 	if pan {
